@@ -4,7 +4,7 @@ import Bng.Model.Nat
   bngdrv component `nat`: replays traces of the real nat.Manager (+ nat.Logger) on the model and runs
   the C10 monitor on the implementation's observations.
 
-    new <pps> <rangeStart> <rangeEnd> bulk|trad|off   => ok
+    new <pps> <rangeStart> <rangeEnd> bulk|trad|off   => ok | invalid      (Go ints; `invalid` = NewManager rejected them)
     addip p3               => ok | dup
     alloc k1               => ok p3 <start> <end> i<poolIndex> id<subscriberId> | exhausted
     dealloc k1             => ok
@@ -153,9 +153,11 @@ def runPending (s : Cgnat.State) : List Pending → Cgnat.State × List String
 def step (st : St) (toks : List String) (impl : String) : St × LineResult :=
   match toks with
   | ["new", pps, rs, re, mode] =>
-    match pps.toNat?, rs.toNat?, re.toNat?, parseMode mode with
+    match pps.toInt?, rs.toInt?, re.toInt?, parseMode mode with
     | some pps, some rs, some re, some (logOn, bulk) =>
-      ({ model := some (init (mkCfg pps rs re logOn bulk)) }, { modelObs := "ok" })
+      match newManager pps rs re logOn bulk with
+      | some c => ({ model := some (init c) }, { modelObs := "ok" })
+      | none => ({}, { modelObs := "invalid" })
     | _, _, _, _ => (st, { modelObs := "badop" })
   | _ =>
     match st.model with
